@@ -73,6 +73,22 @@ Proof.
   eapply seq_ev_app; [eapply (seq_ev_mono _ _ _ _ _ _ H1)|apply (ups _ n1 _ _ _ H2)].
   Unshelve. intros. eapply peg_ev_mono; [|eassumption]. lia.
 Qed.
+Lemma seq_ev_app_fail (f : expr -> nat -> option out) l1 : forall l2 p p1 f1 v1 v2,
+  seq_ev f l1 p = Some (Succ p1 f1, v1) -> seq_ev f l2 p1 = Some (Fail, v2) ->
+  seq_ev f (l1 ++ l2) p = Some (Fail, v1 ++ v2).
+Proof.
+  induction l1 as [|e l1 IH]; intros l2 p p1 f1 v1 v2 H1 H2; cbn [seq_ev app] in *.
+  - inv H1. exact H2.
+  - destruct (f e p) as [[[|q fq] vq]|]; try discriminate.
+    destruct (seq_ev f l1 q) as [[[|q' fq'] vq']|] eqn:E; try discriminate. inv H1.
+    rewrite (IH l2 _ _ _ _ _ E H2). rewrite !app_assoc. reflexivity.
+Qed.
+Lemma kos_app l1 l2 p p1 f1 : oks l1 p p1 f1 -> kos l2 p1 -> kos (l1 ++ l2) p.
+Proof.
+  intros (n1 & v1 & H1) (n2 & v2 & H2). exists (Nat.max n1 n2), (v1 ++ v2).
+  eapply seq_ev_app_fail; [eapply (seq_ev_mono _ _ _ _ _ _ H1)|apply (ups _ n1 _ _ _ H2)].
+  Unshelve. intros. eapply peg_ev_mono; [|eassumption]. lia.
+Qed.
 Lemma kos_head e es p : ko e p -> kos (e :: es) p.
 Proof. intros (n & v & H). exists n, v. cbn [seq_ev]. rewrite H. reflexivity. Qed.
 Lemma kos_tail e es p p1 f1 : ok e p p1 f1 -> kos es p1 -> kos (e :: es) p.
